@@ -31,6 +31,8 @@ def slice(ctx: fw.Ctx) -> fw.Outcome:
         src = gen.rand_src(rng, prof)
         if rng.random() < 0.15 and src.tracks:
             src.tracks[0].groups = []
+        if rng.random() < 0.2:  # very slow tempo: intervals of a day and more
+            src.tempo = [(0, rng.choice([1, 2, 5]))] + src.tempo[1:]
         R = gen.render(src, rng, prof, garbage=False)
         c, e, _ = impl.parse(R.text)
         if c is None:
@@ -47,7 +49,7 @@ def slice(ctx: fw.Ctx) -> fw.Outcome:
             real = c.instrument_tracks.get(ins[i], {}).get(dif[d])
             nts = [n.timestamp for n in real.note_events] if real else []
             nticks = ([n.tick for n in real.note_events] if real else []) or [0]
-            form = rng.choice(["none", "tick", "ticks", "time", "times"])
+            form = rng.choice(["none", "tick", "ticks", "time", "times", "days"])
             a = rng.choice(nticks + [0, max(nticks) + 5, rng.randint(0, max(nticks) + 50)])
             b = rng.choice(nticks + [a, a + 1, max(nticks) + 5, rng.randint(0, max(nticks) + 500)])
             args, sb, eb = (), "~", "~"
@@ -61,6 +63,10 @@ def slice(ctx: fw.Ctx) -> fw.Outcome:
             elif form == "times":
                 ta = rng.choice(nts + [timedelta(0), timedelta(microseconds=rng.randint(0, 10**7))])
                 tb = rng.choice(nts + [ta, ta + US, timedelta(microseconds=rng.randint(0, 10**8))])
+                args, sb, eb = (ta, tb), f"u{ta // US}", f"u{tb // US}"
+            if form == "days":
+                ta = rng.choice([timedelta(0), timedelta(seconds=rng.randint(0, 100))])
+                tb = ta + timedelta(days=rng.choice([1, 1, 2, 3]), seconds=rng.choice([0, 0, 5, 4000]))
                 args, sb, eb = (ta, tb), f"u{ta // US}", f"u{tb // US}"
             try:
                 v = c.notes_per_second(ins[i], dif[d], *args)
